@@ -556,3 +556,142 @@ def r9_6(ctx: Ctx, L: Loop, rule="R9.6"):
                    "a worse proposal is accepted iff one uniform draw is below acceptance * E_held / E_new", node=p.end_node)
     ctx.ob(rule, acc, "paths: %d without draw, %d with one draw" % (n_always, n_draw), n_always == 1 and n_draw == 1,
            "the rule has exactly the two cases of the Metropolis criterion", node=acc.node)
+
+
+# ----------------------------------------------------------------------------------------------------------------
+# NaN energies (used by C06/R6.8): the held configuration is never replaced by a proposal whose energy is not a number
+
+def _nan_eval(t: ast.AST, tainted: Set[str]):
+    """Three-valued truth of a test when every tainted name holds NaN (None = not known)."""
+    def isnan(e):
+        if isinstance(e, ast.Name):
+            return e.id in tainted
+        if isinstance(e, ast.BinOp) and isinstance(e.op, (ast.Add, ast.Sub, ast.Mult, ast.Div)):
+            return isnan(e.left) or isnan(e.right)
+        if isinstance(e, ast.UnaryOp) and isinstance(e.op, (ast.USub, ast.UAdd)):
+            return isnan(e.operand)
+        return False
+    if isinstance(t, ast.UnaryOp) and isinstance(t.op, ast.Not):
+        v = _nan_eval(t.operand, tainted)
+        return None if v is None else not v
+    if isinstance(t, ast.BoolOp):
+        vs = [_nan_eval(v, tainted) for v in t.values]
+        if isinstance(t.op, ast.And):
+            return False if any(v is False for v in vs) else (True if all(v is True for v in vs) else None)
+        return True if any(v is True for v in vs) else (False if all(v is False for v in vs) else None)
+    if isinstance(t, ast.Compare) and len(t.ops) == 1:
+        if isnan(t.left) or isnan(t.comparators[0]):
+            if isinstance(t.ops[0], (ast.Lt, ast.LtE, ast.Gt, ast.GtE, ast.Eq)):
+                return False
+            if isinstance(t.ops[0], ast.NotEq):
+                return True
+        return None
+    if isinstance(t, ast.Call) and len(t.args) == 1 and isnan(t.args[0]):
+        nm = call_name(t)
+        if nm == "isnan":
+            return True
+        if nm == "isfinite":
+            return False
+    return None
+
+
+def nan_accept_paths(fn: ast.AST):
+    """(loop, [(path, store)]) - paths through one iteration of the search loop on which the held configuration (the
+    value the function returns) is rebound although every comparison of the proposal's energy is evaluated as it is for
+    NaN; `undecided` counts accept paths guarded by a test on the energy this evaluation cannot read (a call)."""
+    from ..cfg import resolve_flags
+    evals = {s.targets[0].id for s in walk_no_nested(fn) if isinstance(s, ast.Assign) and len(s.targets) == 1
+             and isinstance(s.targets[0], ast.Name) and isinstance(s.value, ast.Call) and call_name(s.value) == "Chi2Calculator"}
+    held = {r.value.id for r in walk_no_nested(fn) if isinstance(r, ast.Return) and isinstance(r.value, ast.Name)}
+    loops = [w for w in walk_no_nested(fn) if isinstance(w, ast.While)]
+    if not evals or not held or len(loops) != 1:
+        return None
+    loop = loops[0]
+
+    def is_eval(v):
+        return isinstance(v, ast.Call) and isinstance(v.func, ast.Name) and v.func.id in evals
+    hits, undecided, accepts = [], 0, 0
+    for p in resolve_flags(enum_paths(loop.body)):
+        tainted: Set[str] = set()
+        state = "ok"          # ok | infeasible | unknown
+        seen_eval = False
+        store = None
+        used = []
+        for ev in p.events:
+            if ev[0] == "s":
+                st = ev[1]
+                if isinstance(st, ast.Assign) and len(st.targets) == 1:
+                    tg, v = st.targets[0], st.value
+                    pairs = []
+                    if isinstance(tg, ast.Name):
+                        pairs = [(tg, v)]
+                    elif isinstance(tg, ast.Tuple) and isinstance(v, ast.Tuple) and len(tg.elts) == len(v.elts):
+                        pairs = list(zip(tg.elts, v.elts))
+                    elif isinstance(tg, ast.Tuple):
+                        pairs = [(e_, None) for e_ in tg.elts]
+                    new_t = set(tainted)
+                    for a, b in pairs:
+                        if not isinstance(a, ast.Name):
+                            continue
+                        if b is not None and is_eval(b):
+                            new_t.add(a.id)
+                            seen_eval = True
+                        elif b is not None and isinstance(b, (ast.Name, ast.BinOp, ast.UnaryOp)) and _nan_eval(
+                                ast.Compare(left=b, ops=[ast.Lt()], comparators=[ast.Constant(0)]), tainted) is False:
+                            new_t.add(a.id)
+                        else:
+                            new_t.discard(a.id)
+                        if a.id in held and seen_eval and state == "ok" and store is None:
+                            store = st
+                    tainted = new_t
+            elif ev[0] == "c" and seen_eval and store is None and state == "ok":
+                t, o = ev[1], ev[2]
+                used.append((t, o))
+                v = _nan_eval(t, tainted)
+                if v is None:
+                    if any(isinstance(n, ast.Name) and n.id in tainted for n in ast.walk(t)):
+                        state = "unknown"
+                elif v != o:
+                    state = "infeasible"
+        if any(isinstance(st, ast.Assign) and any(isinstance(n, ast.Name) and n.id in held and isinstance(n.ctx, ast.Store)
+                                                  for t_ in st.targets for n in ast.walk(t_)) for st in p.stmts()) and seen_eval:
+            accepts += 1
+        if store is not None and state == "ok":
+            hits.append((used, store))
+        elif state == "unknown":
+            undecided += 1
+    return loop, hits, undecided, accepts
+
+
+def nan_never_accepted(ctx: Ctx, rule="R6.8"):
+    f = ctx.repo.func("_minimize_molecules", required=False)
+    if f is None:
+        cands = [g for g in ctx.repo.funcs.values() if any(call_name(c) == "Chi2Calculator" for c in calls_in(g.node))
+                 and any(isinstance(w, ast.While) for w in walk_no_nested(g.node))]
+        f = cands[0] if len(cands) == 1 else None
+    res = nan_accept_paths(f.node) if f is not None else None
+    from ..fixtures import check_fixture
+    check_fixture(ctx, rule, "nanaccept.py",
+                  lambda repo: sum(len((nan_accept_paths(f_.node) or (0, [], 0, 0))[1]) for f_ in repo.funcs.values()), expect_exact=2)
+    if res is None:
+        anchor = f if f is not None else next(iter(ctx.repo.funcs.values()))
+        ctx.ob(rule, anchor, "search loop", True, "the search loop (one while loop, an energy calculator, the returned configuration) "
+               "is not written in a form this rule reads; not decided on this tree", undecided=True)
+        return
+    ctx.seen(f)
+    loop, hits, undecided, accepts = res
+    if hits:
+        p, st = hits[0]
+        conds = " and ".join(("" if o else "not ") + "(" + norm(t)[:90] + ")" for t, o in p[-2:]) or "the energy has been computed"
+        ctx.ob(rule, f, st, False,
+               "a proposal whose energy is not a number is never taken as the held configuration -- `%s` is reached when %s, "
+               "which holds when the proposal's energy is NaN (every ordering comparison with NaN is false): a degenerate "
+               "single-atom move then replaces the coordinates by NaN" % (norm(st)[:60], conds), node=st)
+    elif accepts == 0:
+        ctx.ob(rule, f, "accept store", True, "no path of the loop rebinds the returned configuration after an energy evaluation; "
+               "not decided on this tree", undecided=True, node=loop)
+    else:
+        ctx.ob(rule, f, "%d accepting path(s) of the loop body" % accepts, True,
+               "on no path is the held configuration replaced when the comparisons on the proposal's energy are evaluated as "
+               "they are for NaN (%d path(s) are guarded by the acceptance call, whose form is the other half of this rule)" % undecided,
+               node=loop)
